@@ -236,3 +236,7 @@ val zmax_list : z list -> z
 val lag_of : z list -> z -> z
 
 val lead_of : z list -> z -> z
+
+val idx_text : z -> str
+
+val f_idx_text : z -> str
